@@ -2494,6 +2494,18 @@ impl<'a> Visitor<'a, '_, Error> for JSONValidator<'a> {
             jv.state.generic_rules = self.state.generic_rules.clone();
             jv.state.eval_generic_rule = Some(ident.ident);
             jv.state.visited_rules = self.state.visited_rules.clone();
+            // The instantiated rule counts as visited at this data location, so a
+            // generic rule that refers back to itself without consuming input
+            // (`g<T> = g<T> / T`) is reported instead of recursing forever
+            let visited_key = format!("{}\u{0}{}", ident.ident, self.state.data_location);
+            if !jv.state.visited_rules.insert(visited_key) {
+              self.add_error(format!(
+                "Recursive rule reference detected: {}. This may indicate a circular definition in the CDDL schema.",
+                ident.ident
+              ));
+              return Ok(());
+            }
+            jv.state.data_location = self.state.data_location.clone();
             jv.state.is_group_to_choice_enum = true;
             jv.state.is_multi_type_choice = self.state.is_multi_type_choice;
             jv.visit_rule(rule)?;
@@ -2566,6 +2578,18 @@ impl<'a> Visitor<'a, '_, Error> for JSONValidator<'a> {
             jv.state.generic_rules = self.state.generic_rules.clone();
             jv.state.eval_generic_rule = Some(ident.ident);
             jv.state.visited_rules = self.state.visited_rules.clone();
+            // The instantiated rule counts as visited at this data location, so a
+            // generic rule that refers back to itself without consuming input
+            // (`g<T> = g<T> / T`) is reported instead of recursing forever
+            let visited_key = format!("{}\u{0}{}", ident.ident, self.state.data_location);
+            if !jv.state.visited_rules.insert(visited_key) {
+              self.add_error(format!(
+                "Recursive rule reference detected: {}. This may indicate a circular definition in the CDDL schema.",
+                ident.ident
+              ));
+              return Ok(());
+            }
+            jv.state.data_location = self.state.data_location.clone();
             jv.state.is_multi_type_choice = self.state.is_multi_type_choice;
             jv.visit_rule(rule)?;
 
@@ -2630,6 +2654,18 @@ impl<'a> Visitor<'a, '_, Error> for JSONValidator<'a> {
             jv.state.generic_rules = self.state.generic_rules.clone();
             jv.state.eval_generic_rule = Some(ident.ident);
             jv.state.visited_rules = self.state.visited_rules.clone();
+            // The instantiated rule counts as visited at this data location, so a
+            // generic rule that refers back to itself without consuming input
+            // (`g<T> = g<T> / T`) is reported instead of recursing forever
+            let visited_key = format!("{}\u{0}{}", ident.ident, self.state.data_location);
+            if !jv.state.visited_rules.insert(visited_key) {
+              self.add_error(format!(
+                "Recursive rule reference detected: {}. This may indicate a circular definition in the CDDL schema.",
+                ident.ident
+              ));
+              return Ok(());
+            }
+            jv.state.data_location = self.state.data_location.clone();
             jv.state.is_multi_type_choice = self.state.is_multi_type_choice;
             jv.visit_rule(rule)?;
 
